@@ -1521,7 +1521,11 @@ class ProvBundle(object):
                 if len(records) > 1:
                     # more than one record having the same identifier
                     # merge the records
-                    merged = records[0].copy()
+                    # the merged record is put together outside this bundle:
+                    # merging must not register namespaces in the source
+                    merged = PROV_REC_CLS[records[0].get_type()](
+                        ProvBundle(), records[0].identifier, records[0].attributes
+                    )
                     for record in records[1:]:
                         merged.add_attributes(record.attributes)
                     # map all of them to the merged record
